@@ -79,14 +79,14 @@ Proof.
   unfold mgr_add_subscription. rewrite Z.eqb_refl. cbn [with_msubs msubs memb].
   rewrite mem_set_add, mem_nil. reflexivity.
 Qed.
-(* NOTE the order of the statements in manager.py: the module is added to subscriptions[ALL] FIRST and
-   then discarded from subscriptions[s] for every s in Module.subs - which contains ALL itself when the
-   module is already subscribed to everything. *)
+(* NOTE the order of the statements in manager.py (since fix a892a86): the module is FIRST discarded from
+   subscriptions[s] for every s in Module.subs - which contains ALL itself when the module is already
+   subscribed to everything - and only THEN added to subscriptions[ALL]. *)
 Lemma add_all_memb x m :
-  mem x (memb (mgr_add_subscription m ALL)) = (mem x (memb m) || (x =? ALL)) && negb (mem x (msubs m)).
+  mem x (memb (mgr_add_subscription m ALL)) = (mem x (memb m) && negb (mem x (msubs m))) || (x =? ALL).
 Proof.
-  unfold mgr_add_subscription. rewrite Z.eqb_refl. cbn [with_msubs msubs memb].
-  rewrite fold_discard_memb. cbn [with_memb memb msubs]. rewrite mem_set_add. reflexivity.
+  unfold mgr_add_subscription. rewrite Z.eqb_refl. cbn [with_msubs with_memb msubs memb].
+  rewrite mem_set_add, fold_discard_memb. reflexivity.
 Qed.
 Lemma remove_all_msubs x m : mem x (msubs (mgr_remove_subscription m ALL)) = false.
 Proof. unfold mgr_remove_subscription. rewrite Z.eqb_refl. reflexivity. Qed.
@@ -184,22 +184,22 @@ Definition ctrl_step (s : sys) (k : ckind) (l : list Z) : sys * option cexc :=
   | SRaise e c' => (mkS c' (mg s), Some e)
   end.
 
-Lemma ctrl_step_Inv s k l : Inv s -> (adds k && sub_all (cl s) && mem ALL l) = false ->
-  Inv (fst (ctrl_step s k l)).
+Lemma ctrl_step_Inv s k l : Inv s -> Inv (fst (ctrl_step s k l)).
 Proof.
-  intros HI HX. unfold ctrl_step. rewrite sub_ctrl_eq. destruct s as [c m]. cbn [cl mg] in *.
+  intros HI. unfold ctrl_step. rewrite sub_ctrl_eq. destruct s as [c m]. cbn [cl mg] in *.
   unfold Inv in HI. cbn [cl mg] in HI. destruct (mem ALL l) eqn:HA.
   - (* names ALL_MESSAGE_TYPES: one frame *)
     cbn [fst]. unfold mgr_recv_all. cbn [fold_left]. rewrite mgr_recv_kind. unfold spec_all.
     destruct (adds k) eqn:K.
-    + (* subscribe/resume ALL: excluded when already subscribed to all *)
-      cbn in HX. rewrite andb_true_r in HX. rewrite HX in HI. destruct HI as (H1 & H2 & H3 & H4 & H5).
+    + (* subscribe/resume ALL, also when already subscribed to all *)
       unfold Inv. cbn [cl mg sub_all subscribed paused].
       split; [intros x; rewrite mem_cons, mem_nil, orb_false_r; reflexivity|].
       split; [intros x; reflexivity|]. split; intros x.
       * apply add_all_msubs.
-      * rewrite add_all_memb, H4, H5. destruct (x =? ALL) eqn:E; [|destruct (mem x (subscribed c)); reflexivity].
-        apply Z.eqb_eq in E. subst. rewrite H1. reflexivity.
+      * rewrite add_all_memb. destruct (sub_all c).
+        -- destruct HI as (H1 & H2 & H3 & H4). rewrite H3, H4. destruct (x =? ALL); reflexivity.
+        -- destruct HI as (H1 & H2 & H3 & H4 & H5). rewrite H4, H5.
+           destruct (mem x (subscribed c)), (x =? ALL); reflexivity.
     + unfold Inv. cbn [cl mg sub_all subscribed paused].
       split; [reflexivity|]. split; [reflexivity|]. split; [intros x; reflexivity|].
       split; intros x; rewrite ?mem_nil.
@@ -231,18 +231,12 @@ Lemma sys_step_as_ctrl s o :
   end.
 Proof. destruct o; reflexivity. Qed.
 
-Lemma sys_step_Inv s o : Inv s -> resub_all (cl s) o = false -> Inv (fst (sys_step s o)).
-Proof.
-  intros HI HX. rewrite sys_step_as_ctrl. unfold resub_all in HX.
-  destruct o; apply ctrl_step_Inv; try exact HI; cbn [adds andb]; try reflexivity;
-    try (destruct (sub_all (cl s)); cbn in *; rewrite ?mem_to_set; exact HX).
-Qed.
+Lemma sys_step_Inv s o : Inv s -> Inv (fst (sys_step s o)).
+Proof. intros HI. rewrite sys_step_as_ctrl. destruct o; apply ctrl_step_Inv; exact HI. Qed.
 
-Lemma run_Inv ops : forall s, Inv s -> no_resub_all s ops = true -> Inv (run s ops).
+Lemma run_Inv ops : forall s, Inv s -> Inv (run s ops).
 Proof.
-  induction ops as [|o r IH]; intros s HI HX; [exact HI|].
-  cbn [no_resub_all] in HX. apply andb_true_iff in HX. destruct HX as [H1 H2].
-  apply negb_true_iff in H1. cbn [run]. apply IH; [apply sys_step_Inv; assumption|exact H2].
+  induction ops as [|o r IH]; intros s HI; [exact HI|]. cbn [run]. apply IH. apply sys_step_Inv. exact HI.
 Qed.
 
 (* the emitted frames depend on msg_list only as a set, and their order is irrelevant to the manager *)
